@@ -61,4 +61,10 @@ CHECKS["C09"] = {
   "note": "validators stubbed with sklearn's aliasing contract for float64 C-order writeable input (worst case); PCovR/KernelPCovR/Ridge2FoldCV/OrthogonalRegression/DirectionalConvexHull/reconstruction measures and SparseKDE.fit are outside this check; three defects repaired, one recorded (VoronoiFPS calibrated full_fraction, pinned by a test)",
   "technique": TECH,
 }
+CHECKS["C14"] = {
+  "text": "The real PCovR.fit/_fit_feature_space/_fit_sample_space/_decompose_full/transform/inverse_transform/predict/score (and sklearn's _BasePCA.transform underneath) are executed on the factor family X = U diag(s) V^T, Y = U diag(g) with symbolic spectra, targets, mixing in (0,1], ridge strength and new data; on every path (eigenvalue orderings and tolerance branches forked): transform == X pxt_, predict(X) == predict(T=transform(X)), T^T T == diag(retained eigenvalues), transform(inverse_transform(T)) == T, nested components and non-increasing losses in k, score == -(lX+lY), 1-D y shapes. Bounded: 4x2 (4x3 thorough), frames from a finite rational library.",
+  "design_ref": "DESIGN.md 2/C14, 1.4",
+  "note": "exact reals; decompositions are verified-frame stubs (exact, one legal LAPACK output); claim is 'for all spectra over frames in the library'; retained eigenvalues assumed > tol; one repaired defect (precomputed regressor with 1-D y in sample space)",
+  "technique": TECH,
+}
 NOT_APPLICABLE = {}
